@@ -292,6 +292,7 @@ type Flow struct {
 	Label string
 	Ret   []*Term
 	Pos   token.Pos
+	ErrRet bool // the return statement returns a (non-nil-literal) error value
 }
 
 // ---------------- obligations ----------------
@@ -306,6 +307,7 @@ type Oblig struct {
 	Pos     string
 	Desc    string
 	MustSat bool // vacuity checks: expected sat
+	ErrRet  bool // vacuity-path: the return statement is an error return
 	Mode    string
 	// results
 	Verdict   string // unsat sat unknown
